@@ -74,6 +74,8 @@ func (p *packageParse) unpack(data []byte) (msgs []*Message, err error) {
 			return count == 2
 		})
 		if index == len(data)-1 {
+			// 读缓冲区会被下一次Read覆盖(关闭时清零) 报文必须持有自己的数据
+			data = bytes.Clone(data)
 			jtMsg := jt808.NewJTMessage()
 			if err := jtMsg.Decode(data); err != nil {
 				return nil, fmt.Errorf("%w [%x]", err, data)
@@ -106,7 +108,8 @@ func (p *packageParse) unpack(data []byte) (msgs []*Message, err error) {
 		msgs = append(msgs, msg)
 		if end == len(p.historyData) {
 			// 没有遗留的数据
-			p.historyData = p.historyData[0:0]
+			// 不能复用底层数组 否则后续数据会覆盖已交付报文引用的内容
+			p.historyData = nil
 			return msgs, nil
 		}
 		p.historyData = p.historyData[end:]
